@@ -261,3 +261,45 @@ func VerifC09ValueSequence() {
 	nd.Cover("a required value is missing after optional ones")
 	nd.Assert(err != nil, "C09: a required configuration value that cannot be satisfied is reported, whatever optional values precede it")
 }
+
+// C11: a user-supplied tag processor that shares a built-in node type (Configuration) and does not
+// make its points required receives its properties with exactly the arguments written in the tag -
+// whatever other scanners of the same node type run before or after it, for direct and embedded fields.
+type vEnvInner struct {
+	E2 string `env:"Y,opt"`
+}
+
+type vEnvHolder struct {
+	vEnvInner
+	V string `value:"${k}"`
+	E string `env:"X"`
+}
+
+func VerifC11CustomNode() {
+	env := &DefaultTagScanDefinitionRegistryPostProcessor{NodeType: component_definition.PropertyTypeConfiguration, Tag: "env", Required: false}
+	va := NewValueAwarePostProcessors().(*valueAwarePostProcessors)
+	pa := NewPropertiesAwarePostProcessors().(*propertiesAwarePostProcessors)
+	reg := support.DefaultDefinitionRegistry()
+	h := &vEnvHolder{}
+	scanners := []container.DefinitionRegistryPostProcessor{env, va, pa}
+	rot := nd.Choose(3) // the scanning processors run in an arbitrary order
+	for i := 0; i < 3; i++ {
+		nd.Assert(scanners[(i+rot)%3].PostProcessDefinitionRegistry(reg, h, "h") == nil, "scan ok")
+	}
+	seen := 0
+	for _, p := range reg.GetMetaByName("h").GetConfigurationProperties() {
+		switch p.StructField.Name {
+		case "E":
+			seen++
+			nd.Assert(p.Tag == "env" && p.TagVal == "X" && len(p.Args()) == 0, "C11: a user-supplied tag processor receives the tag's value and exactly the arguments written in the tag")
+		case "E2":
+			seen++
+			nd.Assert(p.Tag == "env" && p.TagVal == "Y" && len(p.Args()) == 1 && p.Args().Has("opt"), "C11: a user-supplied tag processor receives the tag's value and exactly the arguments written in the tag, also for embedded fields")
+		case "V":
+			seen++
+			nd.Assert(p.Tag == "value" && p.IsRequired() && p.Args().Has(component_definition.ArgRequired), "C11: the built-in value scanner marks its own points required")
+		}
+	}
+	nd.Assert(seen == 3, "C11: exactly the fields carrying a recognised tag become properties")
+	nd.Cover("custom processor sharing a built-in node type")
+}
